@@ -4,8 +4,8 @@ import vlib
 
 TARGETS = ["Base/Corr.vo", "C11/Model.vo", "C11/Spec.vo", "C11/ProofsMap.vo", "C11/ProofsIter.vo", "C11/ProofsInv.vo",
            "C11/ProofsRef.vo",
-           "C03/Model.vo", "C03/Corr.vo", "C03/Spec.vo", "C03/SpecTest.vo", "C03/ProofsDense.vo", "C03/ProofsSem.vo",
-           "C03/ProofsJoint.vo", "C03/ProofsOps.vo", "C03/Props.vo"]
+           "C03/Model.vo", "C03/Corr.vo", "C03/Spec.vo", "C03/SpecTest.vo", "C03/ProofsDense.vo",
+           "C03/ProofsOps.vo", "C03/Props.vo"]
 PROPS = ["C03/Props.v"]
 PARTIAL = ("Theorems are about the hand-written model coq/C03/Model.v (on top of the shared sparse-vector model "
            "coq/C11/Model.v: heap of cells + value map + ordered key set standing for the AVL index, justified by C19) of "
@@ -80,6 +80,21 @@ def hunt(ctx, binary, bad, broken):
     return None
 
 
+def known(ctx, binary):
+    """Replay the witnesses of the recorded findings on the implementation."""
+    rc, out = vlib.sh([binary, "--extra", "known", "--out", ctx.dir], timeout=300, env=vlib.go_env())
+    kp = os.path.join(ctx.dir, "known.json")
+    if rc != 0 or not os.path.exists(kp):
+        return
+    seen = {k["id"]: k for k in json.load(open(kp))}
+    for f in known_list():
+        k = seen.get(f["id"])
+        if k and k["confirmed"]:
+            ctx.known_finding(f["id"], f["what"])
+        elif k:
+            ctx.notes.append("known finding %s no longer reproduces: %s" % (f["id"], k["detail"]))
+
+
 def is_known(h):
     """A hunt result that is one of the recorded findings (narrow match: id's op + failure text)."""
     for f in known_list():
@@ -109,6 +124,7 @@ def run(ctx):
     n = 360 if ctx.tier == "quick" else 3600
     bad = corr(ctx, binary, n)
     broken = [f["target"] for f in failures] + (["correspondence C03.Corr.check"] if bad else [])
+    known(ctx, binary)
     h0 = hunt(ctx, binary, bad, broken)
     if h0:
         f = is_known(h0)
